@@ -1,7 +1,7 @@
 (* Property C05 — parsing is invariant under keyword case, whitespace and line layout. *)
 From Coq Require Import String Ascii List ZArith NArith Bool.
 From SDP Require Import Base PyStr Regex Lexer Actions Parse Pre Engine Seq SeqProofs LexProofs PreProofs.
-From SDP Require Entity Table TableProofs Alter AlterProofs AlterKeyProofs KeywordCaseProofs.
+From SDP Require Entity Table TableProofs Alter AlterProofs AlterKeyProofs KeywordCaseProofs TypeDom.
 From SDP.Gen Require RegexAst.
 Import ListNotations.
 Open Scope string_scope.
@@ -58,6 +58,11 @@ Theorem C05_alter_keyword_case : forall a a' norm silent silent',
   parse_lexemes norm silent (Alter.lexemes a) = parse_lexemes norm silent' (Alter.lexemes a').
 Proof. exact KeywordCaseProofs.alter_keyword_case. Qed.
 Print Assumptions C05_alter_keyword_case.
+Theorem C05_type_domain_keyword_case : forall d d' norm silent silent',
+  TypeDom.wf norm d = true -> TypeDom.wf norm d' = true -> KeywordCaseProofs.c_decl d = KeywordCaseProofs.c_decl d' ->
+  parse_lexemes norm silent (TypeDom.lexemes d) = parse_lexemes norm silent' (TypeDom.lexemes d').
+Proof. exact KeywordCaseProofs.typedom_keyword_case. Qed.
+Print Assumptions C05_type_domain_keyword_case.
 
 (* ---------- line breaks and indentation between the tokens of a statement ----------------------------------------------------------------
    Two layouts of a statement over lines (conditions on each line alone, see C03) whose line codes, joined by single blanks, are
